@@ -48,6 +48,8 @@ pub fn c11_scenario() -> Scenario {
         // the same include list with the statement at another place
         alphabet.push(Touch { doc: x, text: format!("// moved\ninclude \"{y}\"\nclass {n}2;\n"), reopen: false });
         alphabet.push(Touch { doc: x, text: format!("include \"c.td\"\nclass {n}3;\n"), reopen: false });
+        // a syntax error of the document's own text (reported for the file whatever its place in the workspace)
+        alphabet.push(Touch { doc: x, text: format!("class {n}4\n"), reopen: false });
     }
     Scenario {
         id: "C11",
@@ -79,6 +81,8 @@ pub fn c12_scenario() -> Scenario {
             // a tab closed and opened again: its version numbers start again below the ones seen before
             Touch { doc: "b é.td", text: "class BufB2;\n".into(), reopen: true },
             Touch { doc: "a.td", text: "include \"b é.td\"\ndef y : BufB2;\n".into(), reopen: true },
+            // the faulty text of b with one line break as a blank: every byte offset stays, the lines move
+            Touch { doc: "b é.td", text: "class BufB;\nclass BufB2; def bb : Nope;\n".into(), reopen: false },
             // a new document that has never been saved: it exists in the editor only, and the root includes it
             Touch { doc: "n.td", text: "class BufN;\n".into(), reopen: false },
             Touch { doc: "a.td", text: "include \"n.td\"\ndef xn : BufN;\n".into(), reopen: false },
@@ -317,7 +321,7 @@ impl Engine for C11 {
     }
     fn rule(&self, tier: Tier) -> String {
         format!(
-            "every session of <= {} didOpen/didChange messages over two documents x 6 texts each (clean; faulty, twice: the same fault at the same byte offset on two different lines; includes the other document, twice: the include statement at two different places; includes a faulty file that is only on disk), \
+            "every session of <= {} didOpen/didChange messages over two documents x 7 texts each (clean; a syntax error; faulty, twice: the same fault at the same byte offset on two different lines; includes the other document, twice: the include statement at two different places; includes a faulty file that is only on disk), \
              the first message to a document being didOpen and later ones didChange, driven through the real server one message at a time to quiescence; after the last message of every session \
              (every session is a prefix of longer ones) the latest publication per URI must equal the diagnostics of the final state and be empty for URIs outside the final workspace; versions per URI never decrease. \
              In addition every schedule (controlled scheduler and lock model of C08, hook H3) of every scenario didOpen ; n1 [; n2 [; n3]] of <= {} open/change notifications \
@@ -382,7 +386,7 @@ impl Engine for C12 {
     }
     fn rule(&self, tier: Tier) -> String {
         format!(
-            "every session of <= {} messages over the 15 letters below and every session of {} messages over 9 of them (a with and without its include, b's two buffers, b including a back, b emptied, both re-opened): {{a.td := 5 texts (three include b.td, one does not, so that b.td leaves and re-enters the workspace while open), b.td := 5 texts, one of which includes a.td back so that the include walk reaches the edited document again; both documents also have the empty text, and each can be closed and opened again; a third document in a subdirectory includes the second through `..`; a fourth exists in the editor only (never saved) and the root can include it; versions count per document, the first open of a tab carries version 10, a re-opened tab starts again at 1}}, the included document is named `b é.td` (its URI carries percent-escapes); every session runs twice, the editor naming the workspace directory by its own path and through a symbolic link to it; the on-disk b.td declares DiskB and the editor's b.td declares BufB / BufB2 (a's texts refer to one of them), \
+            "every session of <= {} messages over the 16 letters below and every session of {} messages over 9 of them (a with and without its include, b's two buffers, b including a back, b emptied, both re-opened): {{a.td := 5 texts (three include b.td, one does not, so that b.td leaves and re-enters the workspace while open), b.td := 5 texts, one of which includes a.td back so that the include walk reaches the edited document again; both documents also have the empty text, and each can be closed and opened again; a third document in a subdirectory includes the second through `..`; a fourth exists in the editor only (never saved) and the root can include it; versions count per document, the first open of a tab carries version 10, a re-opened tab starts again at 1}}, the included document is named `b é.td` (its URI carries percent-escapes); every session runs twice, the editor naming the workspace directory by its own path and through a symbolic link to it; the on-disk b.td declares DiskB and the editor's b.td declares BufB / BufB2 (a's texts refer to one of them), \
              first message to a document = didOpen, later = didChange; after EVERY message the latest publications and the documentSymbol response of every open document must match the reference session model \
              (texts = disk overlaid by open buffers, root = last touched document). states = distinct (buffers, root) configurations; transitions = messages; non-trivial = sessions of >= 2 messages.",
             tier.pick(3, 4),
